@@ -123,6 +123,28 @@ def schemas(rnd):
     cc = coef(rnd, False)
     out.append(("BM0", ("eq", ("mul", cc, V("x")), rhs), "LL", ("eq", ("div", ("mul", cc, V("x")), cc), ("div", rhs, cc)), "shape-root"))
     out.append(("BM0", ("add", t_, k), "R", None, "reject"))                                            # not an equation
+    # the addend anywhere in a longer sum, grouped at random, on either side
+    others = [term(coef(rnd), rnd.choice("xyz"), rnd.choice([None, C(2)])) if rnd.random() < 0.6 else C(rnd.choice([1, 4, 9, -6])) for _ in range(rnd.randint(2, 5))]
+    pos = rnd.randrange(len(others) + 1)
+    items = [(o, False) for o in others]
+    items.insert(pos, (k, True))
+
+    def group(xs):
+        """random binary grouping; returns (tree, path to the marked item or None)"""
+        if len(xs) == 1:
+            return xs[0][0], ("" if xs[0][1] else None)
+        cut = rnd.randint(1, len(xs) - 1)
+        (l, pl), (r, pr) = group(xs[:cut]), group(xs[cut:])
+        return ("add", l, r), ("L" + pl if pl is not None else "R" + pr if pr is not None else None)
+    side, pk = group(items)
+    rest, _ = group([(o, False) for o in others])
+    if rnd.random() < 0.5:
+        out.append(("BM0", ("eq", side, rhs), "L" + pk, ("eq", rest, ("sub", rhs, k)), "shape-root"))
+    else:
+        out.append(("BM0", ("eq", rhs, side), "R" + pk, ("eq", ("sub", rhs, k), rest), "shape-root"))
+    # an addend below a product, a difference or a negation is not a term of the side
+    out.append(("BM0", ("eq", ("mul", C(3), ("add", V("x"), k)), rhs), "LRR", None, "reject"))
+    out.append(("BM0", ("eq", ("sub", t_, ("add", V("y"), k)), rhs), "LRR", None, "reject"))
     return out
 
 
